@@ -9,6 +9,9 @@
 import BB.Proofs.Forge
 import BB.Proofs.G1Markers
 import BB.Proofs.G1Insert
+import BB.Proofs.G11Wait
+import BB.Proofs.G4Wave
+import BB.Properties.C04
 
 namespace BB.C03
 open BB
@@ -760,5 +763,792 @@ example : exampleBP.segs = [] ++ exampleBP.segs[0] :: [exampleBP.segs[1]] ∧
       some (25, [0,0,0,0,0,0,0,0,0,0,0,0,0,1,1,1,1,1,0,0,0,0,0,0,0]) ∧
     (exampleBP.targets "ramp" false).2.contains "ramp2" = false := by
   decide +kernel
+
+/-! ## G11: edits in front of a waituntil - the wait absorbs the shift
+
+  The shift theorems above require the segments behind the edit to contain no waituntil.  Here the
+  complementary case: behind the edit point come a waituntil-free `mid`, then `w = waituntil(t)`,
+  then `rest`.  An edit in front moves the segments of `mid` - and the start of `w` itself - by the
+  inserted / removed sample count, and leaves every segment of `rest` (start sample, length,
+  marker windows) exactly where it was. -/
+
+/-- `laterMarks` looks at the front only through its length -/
+theorem laterMarks_congr_len (sr : ℚ) (sel : Seg → Mark) (preA preB post : List Seg) (lens : List ℕ)
+    (h : preA.length = preB.length) : laterMarks sr sel preA post lens = laterMarks sr sel preB post lens := by
+  unfold laterMarks; rw [h]
+
+/-- which markers a group `post` behind `pre` consists of when further segments follow it (the
+    count list is longer than `pre ++ post`): the segment-bound markers (non-zero length) of the
+    segments of `post`, each at its own segment's start sample - the sum of the counts of all
+    segments before it - plus its delay -/
+theorem later_marks_prefix_are_the_segments (sr : ℚ) (sel : Seg → Mark) (pre post : List Seg) (lens : List ℕ)
+    (hl : pre.length + post.length ≤ lens.length) (m : Mark) :
+    m ∈ laterMarks sr sel pre post lens ↔
+      ∃ (j : ℕ) (_ : j < post.length), (sel post[j]).2 ≠ 0 ∧
+        m = ((((sumN (lens.take (pre.length + j)) : ℕ) : ℤ) : ℚ) / sr + (sel post[j]).1, (sel post[j]).2) :=
+  laterMarks_mem_prefix sr sel pre post lens hl m
+
+/-- **A forged blueprint split around a waituntil behind the split point.**  The segment list is
+    (up to names) `pre ++ (mid ++ w :: rest)`, `mid` waituntil-free, `w = waituntil(t)`.  Both marker
+    arrays are ON exactly on the windows of the absolute markers, the segment-bound markers of `pre`,
+    those of `mid ++ [w]` and those of `rest`; the sample counts of `mid` are the rounded *stored*
+    durations and those of `rest` the rounded durations of `rest` resolved from time `t` on - neither
+    depends on `pre`. -/
+theorem markers_split_wait (b : BP) (pre mid : List Seg) (w : Seg) (rest : List Seg) (t : ℚ) (tl : List Val)
+    (hb : b.segs.map BP.Seg.body = (pre ++ (mid ++ w :: rest)).map BP.Seg.body)
+    (hmid : ∀ s ∈ mid, s.fn.isWait = false) (hw : w.fn.isWait = true) (ha : w.args = .num t :: tl)
+    (f : Forged) (hf : forgeBP b = .ok f) :
+    ∃ sr, b.SR = .num sr ∧
+      (f.blocks.map Blk.len).length = pre.length + (mid.length + 1) + rest.length ∧
+      (∀ k (hk : k < f.m1.length), f.m1[k] = 1 ↔
+        (∃ m ∈ b.marker1 ++ earlierMarks sr (·.m1) pre (f.blocks.map Blk.len), onAt (window f.N sr m) k) ∨
+        (∃ m ∈ laterMarks sr (·.m1) pre (mid ++ [w]) (f.blocks.map Blk.len), onAt (window f.N sr m) k) ∨
+        (∃ m ∈ laterMarks sr (·.m1) (pre ++ (mid ++ [w])) rest (f.blocks.map Blk.len), onAt (window f.N sr m) k)) ∧
+      (∀ k (hk : k < f.m2.length), f.m2[k] = 1 ↔
+        (∃ m ∈ b.marker2 ++ earlierMarks sr (·.m2) pre (f.blocks.map Blk.len), onAt (window f.N sr m) k) ∨
+        (∃ m ∈ laterMarks sr (·.m2) pre (mid ++ [w]) (f.blocks.map Blk.len), onAt (window f.N sr m) k) ∨
+        (∃ m ∈ laterMarks sr (·.m2) (pre ++ (mid ++ [w])) rest (f.blocks.map Blk.len), onAt (window f.N sr m) k)) ∧
+      ((f.blocks.map Blk.len).drop pre.length).take mid.length =
+        (mid.filterMap durOf?).map (fun x => (rhe (x * sr)).toNat) ∧
+      ∃ drest, BP.resolveGo rest t = .ok drest ∧
+        (f.blocks.map Blk.len).drop (pre.length + (mid.length + 1)) = drest.map (fun x => (rhe (x * sr)).toNat) := by
+  obtain ⟨sr, dp, drest, np, nw, nr, hsr, _, hr, _, hnr, hlp, hlr, hlm, _, _, _, hL, _, hm1, hm2⟩ :=
+    forge_split_wait b pre mid w rest t tl hb hmid hw ha f hf
+  have hlmw : ((mid.filterMap durOf?).map (fun x => (rhe (x * sr)).toNat) ++ [nw]).length = (mid ++ [w]).length := by
+    simp only [List.length_append, hlm, List.length_singleton]
+  have key : ∀ (l : List ℕ) (N : ℕ) (A E Mi R : List Mark)
+      (_ : l = paint N ((A ++ (E ++ (Mi ++ R))).map (window N sr))) (k : ℕ) (hk : k < l.length),
+      l[k] = 1 ↔ (∃ m ∈ A ++ E, onAt (window N sr m) k) ∨ (∃ m ∈ Mi, onAt (window N sr m) k) ∨
+        (∃ m ∈ R, onAt (window N sr m) k) := by
+    intro l N A E Mi R hl k hk
+    subst hl
+    rw [paint_on_iff_marks]
+    constructor
+    · rintro ⟨m, hm, ho⟩
+      simp only [List.mem_append] at hm
+      rcases hm with hm | hm | hm | hm
+      · exact Or.inl ⟨m, by simp [hm], ho⟩
+      · exact Or.inl ⟨m, by simp [hm], ho⟩
+      · exact Or.inr (Or.inl ⟨m, hm, ho⟩)
+      · exact Or.inr (Or.inr ⟨m, hm, ho⟩)
+    · rintro (⟨m, hm, ho⟩ | ⟨m, hm, ho⟩ | ⟨m, hm, ho⟩)
+      · simp only [List.mem_append] at hm
+        exact ⟨m, by simp only [List.mem_append]; tauto, ho⟩
+      · exact ⟨m, by simp only [List.mem_append]; tauto, ho⟩
+      · exact ⟨m, by simp only [List.mem_append]; tauto, ho⟩
+  refine ⟨sr, hsr, ?_, ?_, ?_, ?_, drest, hr, ?_⟩
+  · rw [hL]
+    simp only [List.length_append, hlp, hlm, hlr, List.length_singleton]
+    omega
+  · rw [hL, earlierMarks_eq _ _ _ _ _ hlp, laterMarks_mid _ _ _ _ _ _ _ hlp hlmw,
+      laterMarks_rest _ _ _ _ _ _ _ _ hlp hlmw]
+    exact key _ _ _ _ _ _ hm1
+  · rw [hL, earlierMarks_eq _ _ _ _ _ hlp, laterMarks_mid _ _ _ _ _ _ _ hlp hlmw,
+      laterMarks_rest _ _ _ _ _ _ _ _ hlp hlmw]
+    exact key _ _ _ _ _ _ hm2
+  · rw [hL, List.drop_left' hlp, List.append_assoc, List.take_left' hlm]
+  · rw [hL, ← List.append_assoc, List.drop_left' (by simp only [List.length_append, hlp, hlmw, List.length_singleton]),
+      hnr]
+
+/-- **Common suffix behind a waituntil.**  Two blueprints at the same sample rate whose segment
+    lists end (up to names) in the same `mid ++ w :: rest` - `mid` waituntil-free, `w = waituntil(t)`
+    - behind fronts `pre₁`, `pre₂` (e.g. before and after inserting, removing or re-timing segments
+    in front), both forging.  Then
+    * the segments of `mid` get the same sample counts in both, and so do the segments of `rest`;
+    * if the front is `n` samples longer in the second, the segment-bound markers of `mid ++ [w]`
+      are exactly those of the first moved by `n` samples (the waituntil's own marker moves too:
+      its *start* moves, only its end is pinned);
+    * if the segment after the wait starts at the same sample in both (as it does for sample-aligned
+      fronts, `common_suffix_wait_aligned`), the waveforms have the same total length and the
+      segment-bound markers of `rest` are literally the same. -/
+theorem common_suffix_wait_shift (b1 b2 : BP) (pre1 pre2 mid : List Seg) (w : Seg) (rest : List Seg) (t : ℚ)
+    (tl : List Val)
+    (h1 : b1.segs.map BP.Seg.body = (pre1 ++ (mid ++ w :: rest)).map BP.Seg.body)
+    (h2 : b2.segs.map BP.Seg.body = (pre2 ++ (mid ++ w :: rest)).map BP.Seg.body)
+    (hmid : ∀ s ∈ mid, s.fn.isWait = false) (hw : w.fn.isWait = true) (ha : w.args = .num t :: tl)
+    (sr : ℚ) (hs1 : b1.SR = .num sr) (hs2 : b2.SR = .num sr)
+    (f1 f2 : Forged) (hf1 : forgeBP b1 = .ok f1) (hf2 : forgeBP b2 = .ok f2) :
+    ((f2.blocks.map Blk.len).drop pre2.length).take mid.length =
+      ((f1.blocks.map Blk.len).drop pre1.length).take mid.length ∧
+    (f2.blocks.map Blk.len).drop (pre2.length + (mid.length + 1)) =
+      (f1.blocks.map Blk.len).drop (pre1.length + (mid.length + 1)) ∧
+    (∀ n : ℕ, sumN ((f2.blocks.map Blk.len).take pre2.length) =
+        sumN ((f1.blocks.map Blk.len).take pre1.length) + n →
+      laterMarks sr (·.m1) pre2 (mid ++ [w]) (f2.blocks.map Blk.len) =
+        (laterMarks sr (·.m1) pre1 (mid ++ [w]) (f1.blocks.map Blk.len)).map (shiftMark sr n) ∧
+      laterMarks sr (·.m2) pre2 (mid ++ [w]) (f2.blocks.map Blk.len) =
+        (laterMarks sr (·.m2) pre1 (mid ++ [w]) (f1.blocks.map Blk.len)).map (shiftMark sr n)) ∧
+    (sumN ((f2.blocks.map Blk.len).take (pre2.length + (mid.length + 1))) =
+        sumN ((f1.blocks.map Blk.len).take (pre1.length + (mid.length + 1))) →
+      f2.N = f1.N ∧
+      laterMarks sr (·.m1) (pre2 ++ (mid ++ [w])) rest (f2.blocks.map Blk.len) =
+        laterMarks sr (·.m1) (pre1 ++ (mid ++ [w])) rest (f1.blocks.map Blk.len) ∧
+      laterMarks sr (·.m2) (pre2 ++ (mid ++ [w])) rest (f2.blocks.map Blk.len) =
+        laterMarks sr (·.m2) (pre1 ++ (mid ++ [w])) rest (f1.blocks.map Blk.len)) := by
+  obtain ⟨sr1, dp1, dr1, np1, nw1, nr1, e1, _, hr1, _, hnr1, hlp1, _, hlm1, _, _, _, hL1, hN1, _, _⟩ :=
+    forge_split_wait b1 pre1 mid w rest t tl h1 hmid hw ha f1 hf1
+  obtain ⟨sr2, dp2, dr2, np2, nw2, nr2, e2, _, hr2, _, hnr2, hlp2, _, hlm2, _, _, _, hL2, hN2, _, _⟩ :=
+    forge_split_wait b2 pre2 mid w rest t tl h2 hmid hw ha f2 hf2
+  have : sr1 = sr := by rw [hs1] at e1; cases e1; rfl
+  subst this
+  have : sr2 = sr1 := by rw [hs2] at e2; cases e2; rfl
+  subst this
+  have : dr2 = dr1 := by rw [hr1] at hr2; cases hr2; rfl
+  subst this
+  have : nr2 = nr1 := by rw [hnr1, hnr2]
+  subst this
+  set nm := (mid.filterMap durOf?).map (fun x => (rhe (x * sr2)).toNat) with hnm
+  have hmw1 : (nm ++ [nw1]).length = (mid ++ [w]).length := by
+    simp only [List.length_append, hlm1, List.length_singleton]
+  have hmw2 : (nm ++ [nw2]).length = (mid ++ [w]).length := by
+    simp only [List.length_append, hlm2, List.length_singleton]
+  have hfront1 : (np1 ++ (nm ++ [nw1])).length = pre1.length + (mid.length + 1) := by
+    simp only [List.length_append, hlp1, hlm1, List.length_singleton]
+  have hfront2 : (np2 ++ (nm ++ [nw2])).length = pre2.length + (mid.length + 1) := by
+    simp only [List.length_append, hlp2, hlm2, List.length_singleton]
+  refine ⟨?_, ?_, ?_, ?_⟩
+  · rw [hL1, hL2, List.drop_left' hlp1, List.drop_left' hlp2, List.append_assoc, List.append_assoc,
+      List.take_left' hlm1, List.take_left' hlm2]
+  · rw [hL1, hL2, ← List.append_assoc, ← List.append_assoc np1, List.drop_left' hfront1, List.drop_left' hfront2]
+  · intro n hn
+    rw [hL1, hL2, List.take_left' hlp1, List.take_left' hlp2] at hn
+    rw [hL1, hL2, laterMarks_mid _ _ _ _ _ _ _ hlp1 hmw1, laterMarks_mid _ _ _ _ _ _ _ hlp2 hmw2,
+      laterMarks_mid _ _ _ _ _ _ _ hlp1 hmw1, laterMarks_mid _ _ _ _ _ _ _ hlp2 hmw2,
+      starts_snoc_indep nm nw2 nw1, hn, segMarks_shift, segMarks_shift]
+    exact ⟨rfl, rfl⟩
+  · intro hn
+    have hn' : sumN np2 + sumN (nm ++ [nw2]) = sumN np1 + sumN (nm ++ [nw1]) := by
+      rw [hL1, hL2, ← List.append_assoc, ← List.append_assoc np1, List.take_left' hfront1, List.take_left' hfront2,
+        sumN_append np2 (nm ++ [nw2]), sumN_append np1 (nm ++ [nw1])] at hn
+      exact hn
+    refine ⟨?_, ?_, ?_⟩
+    · rw [hN1, hN2, sumN_append np2, sumN_append (nm ++ [nw2]) nr2, sumN_append np1, sumN_append (nm ++ [nw1]) nr2]
+      omega
+    · rw [hL1, hL2, laterMarks_rest _ _ _ _ _ _ _ _ hlp1 hmw1, laterMarks_rest _ _ _ _ _ _ _ _ hlp2 hmw2, hn']
+    · rw [hL1, hL2, laterMarks_rest _ _ _ _ _ _ _ _ hlp1 hmw1, laterMarks_rest _ _ _ _ _ _ _ _ hlp2 hmw2, hn']
+
+/-- **... with sample-aligned fronts the waituntil absorbs the whole shift.**  In the situation
+    of `common_suffix_wait_shift`, if in both blueprints the resolved durations in front of the
+    waituntil are whole numbers of samples and `t·SR` is within 0.4 of the integer `T`: the segment
+    after the wait starts at sample `T = round(t·SR)` in both, both waveforms have the same total
+    length, the segments of `rest` have the same lengths and *literally the same* segment-bound
+    markers - "waveform edits never change marker windows other than by moving segment starts", and
+    behind the wait no segment start moves. -/
+theorem common_suffix_wait_aligned (b1 b2 : BP) (pre1 pre2 mid : List Seg) (w : Seg) (rest : List Seg) (t : ℚ)
+    (tl : List Val)
+    (h1 : b1.segs.map BP.Seg.body = (pre1 ++ (mid ++ w :: rest)).map BP.Seg.body)
+    (h2 : b2.segs.map BP.Seg.body = (pre2 ++ (mid ++ w :: rest)).map BP.Seg.body)
+    (hmid : ∀ s ∈ mid, s.fn.isWait = false) (hw : w.fn.isWait = true) (ha : w.args = .num t :: tl)
+    (sr : ℚ) (hs1 : b1.SR = .num sr) (hs2 : b2.SR = .num sr)
+    (f1 f2 : Forged) (hf1 : forgeBP b1 = .ok f1) (hf2 : forgeBP b2 = .ok f2)
+    (ds1 ds2 : List ℚ) (hd1 : b1.resolveWaits = .ok ds1) (hd2 : b2.resolveWaits = .ok ds2)
+    (hal1 : ∀ d ∈ ds1.take (pre1.length + mid.length), ∃ k : ℕ, d * sr = k)
+    (hal2 : ∀ d ∈ ds2.take (pre2.length + mid.length), ∃ k : ℕ, d * sr = k)
+    (T : ℤ) (ht : |t * sr - T| ≤ 2/5) :
+    ((sumN ((f1.blocks.map Blk.len).take (pre1.length + (mid.length + 1))) : ℕ) : ℤ) = T ∧
+    ((sumN ((f2.blocks.map Blk.len).take (pre2.length + (mid.length + 1))) : ℕ) : ℤ) = T ∧
+    f2.N = f1.N ∧
+    (f2.blocks.map Blk.len).drop (pre2.length + (mid.length + 1)) =
+      (f1.blocks.map Blk.len).drop (pre1.length + (mid.length + 1)) ∧
+    laterMarks sr (·.m1) (pre2 ++ (mid ++ [w])) rest (f2.blocks.map Blk.len) =
+      laterMarks sr (·.m1) (pre1 ++ (mid ++ [w])) rest (f1.blocks.map Blk.len) ∧
+    laterMarks sr (·.m2) (pre2 ++ (mid ++ [w])) rest (f2.blocks.map Blk.len) =
+      laterMarks sr (·.m2) (pre1 ++ (mid ++ [w])) rest (f1.blocks.map Blk.len) := by
+  have h1' : b1.segs.map BP.Seg.body = ((pre1 ++ mid) ++ w :: rest).map BP.Seg.body := by
+    rw [h1, List.append_assoc]
+  have h2' : b2.segs.map BP.Seg.body = ((pre2 ++ mid) ++ w :: rest).map BP.Seg.body := by
+    rw [h2, List.append_assoc]
+  obtain ⟨_, hT1, hT2, _⟩ := C04.wait_absorbs b1 b2 (pre1 ++ mid) (pre2 ++ mid) w w rest t tl tl h1' h2' hw hw ha ha
+    sr hs1 hs2 f1 f2 hf1 hf2 ds1 ds2 hd1 hd2 (by simpa using hal1) (by simpa using hal2) T ht
+  simp only [List.length_append, Nat.add_assoc] at hT1 hT2
+  obtain ⟨_, hrest, _, hcond⟩ := common_suffix_wait_shift b1 b2 pre1 pre2 mid w rest t tl h1 h2 hmid hw ha sr hs1 hs2
+    f1 f2 hf1 hf2
+  have heq : sumN ((f2.blocks.map Blk.len).take (pre2.length + (mid.length + 1))) =
+      sumN ((f1.blocks.map Blk.len).take (pre1.length + (mid.length + 1))) := by
+    have := hT2.trans hT1.symm
+    exact_mod_cast this
+  obtain ⟨hN, hm1, hm2⟩ := hcond heq
+  exact ⟨hT1, hT2, hN, hrest, hm1, hm2⟩
+
+/-- one more segment `x` in front: the counts of the longer front are those of the shorter one
+    followed by the count (at least two samples) of `x` -/
+theorem front_plus_one (b1 b2 : BP) (pre post : List Seg) (x : Seg)
+    (h1 : b1.segs.map BP.Seg.body = (pre ++ post).map BP.Seg.body)
+    (h2 : b2.segs.map BP.Seg.body = ((pre ++ [x]) ++ post).map BP.Seg.body)
+    (sr : ℚ) (hs1 : b1.SR = .num sr) (hs2 : b2.SR = .num sr)
+    (f1 f2 : Forged) (hf1 : forgeBP b1 = .ok f1) (hf2 : forgeBP b2 = .ok f2) :
+    ∃ dp dx, BP.resolveGo pre 0 = .ok dp ∧ BP.resolveGo [x] (0 + sumR dp) = .ok [dx] ∧ 2 ≤ rhe (dx * sr) ∧
+      (f2.blocks.map Blk.len).take (pre.length + 1) =
+        (f1.blocks.map Blk.len).take pre.length ++ [(rhe (dx * sr)).toNat] := by
+  obtain ⟨sr1, np1, nq1, e1, hnp1, _, hl1, _, _, _, _, ⟨dp1, hr1, hd1⟩, _⟩ := forge_split b1 pre post h1 f1 hf1
+  obtain ⟨sr2, np2, nq2, e2, hnp2, _, hl2, _, _, _, _, ⟨dp2, hr2, hd2⟩, hge⟩ :=
+    forge_split b2 (pre ++ [x]) post h2 f2 hf2
+  have : sr1 = sr := by rw [hs1] at e1; cases e1; rfl
+  subst this
+  have : sr2 = sr1 := by rw [hs2] at e2; cases e2; rfl
+  subst this
+  obtain ⟨da, dc, hra, hrc, rfl, _⟩ := resolveGo_append_inv pre [x] 0 dp2 hr2
+  have : da = dp1 := by rw [hr1] at hra; cases hra; rfl
+  subst this
+  have hlc : dc.length = 1 := by simpa using resolveGo_length _ _ _ hrc
+  obtain ⟨dx, rfl⟩ : ∃ dx, dc = [dx] := by
+    cases dc with
+    | nil => simp at hlc
+    | cons y ys => cases ys with
+      | nil => exact ⟨y, rfl⟩
+      | cons z zs => simp at hlc
+  refine ⟨da, dx, hr1, hrc, ?_, ?_⟩
+  · have := hge (rhe (dx * sr2)).toNat (by rw [hd2]; simp)
+    omega
+  · have hnp2' : np2.length = pre.length + 1 := by simpa using hnp2
+    rw [hl1, hl2, List.take_left' hnp1, List.take_left' hnp2', hd1, hd2]
+    simp
+
+/-- **Insert in front of a waituntil.**  `b = pre ++ (mid ++ w :: rest)`, `mid` waituntil-free,
+    `w = waituntil(t)`; an ordinary callable with numeric duration `d` is inserted at position `|pre|`,
+    the call is accepted, and the blueprint forges before (`f`) and after (`f'`) - i.e. the insertion
+    still fits before `t`.  With `n = round(d·SR)`:
+    the new block has `n` samples, the blocks of `pre`, `mid` and `rest` keep their lengths, and the
+    segment-bound markers of `mid ++ [w]` after the insertion are those before it *moved by `n`
+    samples* (they stay attached to their segments).  If moreover the fronts are sample-aligned
+    before and after and `t·SR` is within 0.4 of the integer `T`, the waveform keeps its total length,
+    the segment after the wait starts at sample `T` before and after, and the segment-bound markers
+    of `rest` are *literally unchanged*: the waituntil absorbs the shift.
+    (`x` stands for the record of the inserted segment: the marker groups depend on the front only
+    through its length.) -/
+theorem insert_before_wait (b : BP) (pre mid : List Seg) (w : Seg) (rest : List Seg) (t : ℚ) (tl : List Val)
+    (fn : Fn) (args : List Val) (d : ℚ) (name : Val)
+    (hb : b.segs = pre ++ (mid ++ w :: rest)) (hmid : ∀ s ∈ mid, s.fn.isWait = false)
+    (hw : w.fn.isWait = true) (ha : w.args = .num t :: tl) (hfn : fn.special = false)
+    (hacc : (b.insertSegment (pre.length : ℤ) fn args (.num d) name).err = none)
+    (f f' : Forged) (hf : forgeBP b = .ok f)
+    (hf' : forgeBP (b.insertSegment (pre.length : ℤ) fn args (.num d) name).st = .ok f')
+    (sr : ℚ) (hsr : b.SR = .num sr) (x : Seg) :
+    2 ≤ rhe (d * sr) ∧
+    (f'.blocks.map Blk.len).take (pre.length + 1) = (f.blocks.map Blk.len).take pre.length ++ [(rhe (d * sr)).toNat] ∧
+    ((f'.blocks.map Blk.len).drop (pre.length + 1)).take mid.length =
+      ((f.blocks.map Blk.len).drop pre.length).take mid.length ∧
+    (f'.blocks.map Blk.len).drop (pre.length + 1 + (mid.length + 1)) =
+      (f.blocks.map Blk.len).drop (pre.length + (mid.length + 1)) ∧
+    laterMarks sr (·.m1) (pre ++ [x]) (mid ++ [w]) (f'.blocks.map Blk.len) =
+      (laterMarks sr (·.m1) pre (mid ++ [w]) (f.blocks.map Blk.len)).map (shiftMark sr (rhe (d * sr)).toNat) ∧
+    laterMarks sr (·.m2) (pre ++ [x]) (mid ++ [w]) (f'.blocks.map Blk.len) =
+      (laterMarks sr (·.m2) pre (mid ++ [w]) (f.blocks.map Blk.len)).map (shiftMark sr (rhe (d * sr)).toNat) ∧
+    ∀ (ds ds' : List ℚ), b.resolveWaits = .ok ds →
+      (b.insertSegment (pre.length : ℤ) fn args (.num d) name).st.resolveWaits = .ok ds' →
+      (∀ y ∈ ds.take (pre.length + mid.length), ∃ k : ℕ, y * sr = k) →
+      (∀ y ∈ ds'.take (pre.length + 1 + mid.length), ∃ k : ℕ, y * sr = k) →
+      ∀ T : ℤ, |t * sr - T| ≤ 2/5 →
+        ((sumN ((f.blocks.map Blk.len).take (pre.length + (mid.length + 1))) : ℕ) : ℤ) = T ∧
+        ((sumN ((f'.blocks.map Blk.len).take (pre.length + 1 + (mid.length + 1))) : ℕ) : ℤ) = T ∧
+        f'.N = f.N ∧
+        laterMarks sr (·.m1) ((pre ++ [x]) ++ (mid ++ [w])) rest (f'.blocks.map Blk.len) =
+          laterMarks sr (·.m1) (pre ++ (mid ++ [w])) rest (f.blocks.map Blk.len) ∧
+        laterMarks sr (·.m2) ((pre ++ [x]) ++ (mid ++ [w])) rest (f'.blocks.map Blk.len) =
+          laterMarks sr (·.m2) (pre ++ (mid ++ [w])) rest (f.blocks.map Blk.len) := by
+  obtain ⟨nm, hbody, _, _, hSR⟩ := insertSegment_split b pre (mid ++ w :: rest) fn args (.num d) name hb hacc
+  have h1 : b.segs.map BP.Seg.body = (pre ++ (mid ++ w :: rest)).map BP.Seg.body := by rw [hb]
+  have h2 : (b.insertSegment (pre.length : ℤ) fn args (.num d) name).st.segs.map BP.Seg.body =
+      ((pre ++ [newSeg nm fn args (.num d)]) ++ (mid ++ w :: rest)).map BP.Seg.body := by
+    rw [hbody]; simp
+  have hs2 : (b.insertSegment (pre.length : ℤ) fn args (.num d) name).st.SR = .num sr := by rw [hSR, hsr]
+  obtain ⟨dp, dx, _, hrx, hge, htake⟩ := front_plus_one b _ pre (mid ++ w :: rest) (newSeg nm fn args (.num d))
+    h1 h2 sr hsr hs2 f f' hf hf'
+  have hdx : dx = d := by
+    have hwf : fn.isWait = false := by simp [Fn.isWait, hfn]
+    simp only [BP.resolveGo, newSeg, hwf, Bool.false_eq_true, if_false, BP.consOk, Except.ok.injEq,
+      List.cons.injEq, and_true] at hrx
+    exact hrx.symm
+  subst hdx
+  have hlen : (pre ++ [newSeg nm fn args (.num dx)]).length = pre.length + 1 := by simp
+  have hlenx : (pre ++ [x]).length = (pre ++ [newSeg nm fn args (.num dx)]).length := by simp
+  obtain ⟨hmidc, hrestc, hshift, _⟩ := common_suffix_wait_shift b _ pre (pre ++ [newSeg nm fn args (.num dx)]) mid w rest
+    t tl h1 h2 hmid hw ha sr hsr hs2 f f' hf hf'
+  rw [hlen] at hmidc hrestc hshift
+  have hsum : sumN ((f'.blocks.map Blk.len).take (pre.length + 1)) =
+      sumN ((f.blocks.map Blk.len).take pre.length) + (rhe (dx * sr)).toNat := by
+    rw [htake, sumN_append]; simp [sumN]
+  obtain ⟨hs1', hs2'⟩ := hshift _ hsum
+  refine ⟨hge, htake, hmidc, hrestc, ?_, ?_, ?_⟩
+  · rw [laterMarks_congr_len sr _ _ _ _ _ hlenx]; exact hs1'
+  · rw [laterMarks_congr_len sr _ _ _ _ _ hlenx]; exact hs2'
+  · intro ds ds' hds hds' hal hal' T ht
+    obtain ⟨hT1, hT2, hN, _, hm1, hm2⟩ := common_suffix_wait_aligned b _ pre (pre ++ [newSeg nm fn args (.num dx)])
+      mid w rest t tl h1 h2 hmid hw ha sr hsr hs2 f f' hf hf' ds ds' hds hds' hal (by rw [hlen]; exact hal') T ht
+    rw [hlen] at hT2
+    have hlenx2 : ((pre ++ [x]) ++ (mid ++ [w])).length = ((pre ++ [newSeg nm fn args (.num dx)]) ++ (mid ++ [w])).length := by
+      simp
+    refine ⟨hT1, hT2, hN, ?_, ?_⟩
+    · rw [laterMarks_congr_len sr _ _ _ _ _ hlenx2]; exact hm1
+    · rw [laterMarks_congr_len sr _ _ _ _ _ hlenx2]; exact hm2
+
+/-- **Remove in front of a waituntil.**  `b = pre ++ x :: (mid ++ w :: rest)`; the segment `x` at
+    position `|pre|` is removed (`x` may be anything, even an earlier waituntil), and the blueprint
+    forges before (`f`) and after (`f'`).  The waveform in front of the wait loses the `n ≥ 2` samples
+    of `x`; the blocks of `pre`, `mid`, `rest` keep their lengths; the segment-bound markers of
+    `mid ++ [w]` before the removal are those after it moved by `n` samples (they come `n` samples
+    earlier afterwards, with their segments).  With sample-aligned fronts the waveform keeps its total
+    length, the segment after the wait starts at sample `T = round(t·SR)` before and after, and the
+    segment-bound markers of `rest` are literally unchanged. -/
+theorem remove_before_wait (b : BP) (pre mid : List Seg) (x w : Seg) (rest : List Seg) (t : ℚ) (tl : List Val)
+    (name : String) (hb : b.segs = pre ++ x :: (mid ++ w :: rest)) (hi : b.indexOf? name = some pre.length)
+    (hmid : ∀ s ∈ mid, s.fn.isWait = false) (hw : w.fn.isWait = true) (ha : w.args = .num t :: tl)
+    (f f' : Forged) (hf : forgeBP b = .ok f) (hf' : forgeBP (b.removeSegment name).st = .ok f')
+    (sr : ℚ) (hsr : b.SR = .num sr) :
+    (b.removeSegment name).err = none ∧
+    ∃ n : ℕ, 2 ≤ n ∧
+      (f.blocks.map Blk.len).take (pre.length + 1) = (f'.blocks.map Blk.len).take pre.length ++ [n] ∧
+      ((f.blocks.map Blk.len).drop (pre.length + 1)).take mid.length =
+        ((f'.blocks.map Blk.len).drop pre.length).take mid.length ∧
+      (f.blocks.map Blk.len).drop (pre.length + 1 + (mid.length + 1)) =
+        (f'.blocks.map Blk.len).drop (pre.length + (mid.length + 1)) ∧
+      laterMarks sr (·.m1) (pre ++ [x]) (mid ++ [w]) (f.blocks.map Blk.len) =
+        (laterMarks sr (·.m1) pre (mid ++ [w]) (f'.blocks.map Blk.len)).map (shiftMark sr n) ∧
+      laterMarks sr (·.m2) (pre ++ [x]) (mid ++ [w]) (f.blocks.map Blk.len) =
+        (laterMarks sr (·.m2) pre (mid ++ [w]) (f'.blocks.map Blk.len)).map (shiftMark sr n) ∧
+      ∀ (ds ds' : List ℚ), b.resolveWaits = .ok ds → (b.removeSegment name).st.resolveWaits = .ok ds' →
+        (∀ y ∈ ds.take (pre.length + 1 + mid.length), ∃ k : ℕ, y * sr = k) →
+        (∀ y ∈ ds'.take (pre.length + mid.length), ∃ k : ℕ, y * sr = k) →
+        ∀ T : ℤ, |t * sr - T| ≤ 2/5 →
+          ((sumN ((f.blocks.map Blk.len).take (pre.length + 1 + (mid.length + 1))) : ℕ) : ℤ) = T ∧
+          ((sumN ((f'.blocks.map Blk.len).take (pre.length + (mid.length + 1))) : ℕ) : ℤ) = T ∧
+          f'.N = f.N ∧
+          laterMarks sr (·.m1) (pre ++ (mid ++ [w])) rest (f'.blocks.map Blk.len) =
+            laterMarks sr (·.m1) ((pre ++ [x]) ++ (mid ++ [w])) rest (f.blocks.map Blk.len) ∧
+          laterMarks sr (·.m2) (pre ++ (mid ++ [w])) rest (f'.blocks.map Blk.len) =
+            laterMarks sr (·.m2) ((pre ++ [x]) ++ (mid ++ [w])) rest (f.blocks.map Blk.len) := by
+  obtain ⟨hacc, hbody, _, _, hSR⟩ := removeSegment_split b pre (mid ++ w :: rest) x name hb hi
+  refine ⟨hacc, ?_⟩
+  have h2 : b.segs.map BP.Seg.body = ((pre ++ [x]) ++ (mid ++ w :: rest)).map BP.Seg.body := by rw [hb]; simp
+  have hs1 : (b.removeSegment name).st.SR = .num sr := by rw [hSR, hsr]
+  obtain ⟨dp, dx, _, _, hge, htake⟩ := front_plus_one _ b pre (mid ++ w :: rest) x hbody h2 sr hs1 hsr f' f hf' hf
+  have hlen : (pre ++ [x]).length = pre.length + 1 := by simp
+  obtain ⟨hmidc, hrestc, hshift, _⟩ := common_suffix_wait_shift _ b pre (pre ++ [x]) mid w rest
+    t tl hbody h2 hmid hw ha sr hs1 hsr f' f hf' hf
+  rw [hlen] at hmidc hrestc hshift
+  have hsum : sumN ((f.blocks.map Blk.len).take (pre.length + 1)) =
+      sumN ((f'.blocks.map Blk.len).take pre.length) + (rhe (dx * sr)).toNat := by
+    rw [htake, sumN_append]; simp [sumN]
+  obtain ⟨hs1', hs2'⟩ := hshift _ hsum
+  refine ⟨(rhe (dx * sr)).toNat, by omega, htake, hmidc, hrestc, hs1', hs2', ?_⟩
+  intro ds ds' hds hds' hal hal' T ht
+  obtain ⟨hT1, hT2, hN, _, hm1, hm2⟩ := common_suffix_wait_aligned _ b pre (pre ++ [x])
+    mid w rest t tl hbody h2 hmid hw ha sr hs1 hsr f' f hf' hf ds' ds hds' hds hal' (by rw [hlen]; exact hal) T ht
+  rw [hlen] at hT2
+  exact ⟨hT2, hT1, hN.symm, hm1.symm, hm2.symm⟩
+
+/-- **changeDuration in front of a waituntil.**  `b = pre ++ (mid ++ w :: rest)`; a `changeDuration`
+    call (any name, `replaceeverywhere` or not) that addresses no segment of `mid ++ w :: rest`, and
+    the blueprint forges before (`f`) and after (`f'`) - the change still fits before `t`.  The
+    blocks of `mid` and `rest` keep their lengths; the segment-bound markers of `mid ++ [w]` move by
+    exactly the change `n` of the sample count in front of them (stated for growth and shrinkage);
+    with sample-aligned fronts the waveform keeps its total length, the segment after the wait still
+    starts at sample `T = round(t·SR)` and the segment-bound markers of `rest` are literally
+    unchanged. -/
+theorem changeDuration_before_wait (b : BP) (name : String) (dur : Val) (all : Bool)
+    (pre mid : List Seg) (w : Seg) (rest : List Seg) (t : ℚ) (tl : List Val)
+    (hb : b.segs = pre ++ (mid ++ w :: rest))
+    (hnt : ∀ s ∈ mid ++ w :: rest, (b.targets name all).2.contains s.name = false)
+    (hmid : ∀ s ∈ mid, s.fn.isWait = false) (hw : w.fn.isWait = true) (ha : w.args = .num t :: tl)
+    (sr : ℚ) (hsr : b.SR = .num sr)
+    (f f' : Forged) (hf : forgeBP b = .ok f) (hf' : forgeBP (b.changeDuration name dur all).st = .ok f') :
+    ((f'.blocks.map Blk.len).drop pre.length).take mid.length =
+      ((f.blocks.map Blk.len).drop pre.length).take mid.length ∧
+    (f'.blocks.map Blk.len).drop (pre.length + (mid.length + 1)) =
+      (f.blocks.map Blk.len).drop (pre.length + (mid.length + 1)) ∧
+    (∀ n : ℕ, sumN ((f'.blocks.map Blk.len).take pre.length) = sumN ((f.blocks.map Blk.len).take pre.length) + n →
+      laterMarks sr (·.m1) pre (mid ++ [w]) (f'.blocks.map Blk.len) =
+        (laterMarks sr (·.m1) pre (mid ++ [w]) (f.blocks.map Blk.len)).map (shiftMark sr n) ∧
+      laterMarks sr (·.m2) pre (mid ++ [w]) (f'.blocks.map Blk.len) =
+        (laterMarks sr (·.m2) pre (mid ++ [w]) (f.blocks.map Blk.len)).map (shiftMark sr n)) ∧
+    (∀ n : ℕ, sumN ((f.blocks.map Blk.len).take pre.length) = sumN ((f'.blocks.map Blk.len).take pre.length) + n →
+      laterMarks sr (·.m1) pre (mid ++ [w]) (f.blocks.map Blk.len) =
+        (laterMarks sr (·.m1) pre (mid ++ [w]) (f'.blocks.map Blk.len)).map (shiftMark sr n) ∧
+      laterMarks sr (·.m2) pre (mid ++ [w]) (f.blocks.map Blk.len) =
+        (laterMarks sr (·.m2) pre (mid ++ [w]) (f'.blocks.map Blk.len)).map (shiftMark sr n)) ∧
+    ∀ (ds ds' : List ℚ), b.resolveWaits = .ok ds → (b.changeDuration name dur all).st.resolveWaits = .ok ds' →
+      (∀ y ∈ ds.take (pre.length + mid.length), ∃ k : ℕ, y * sr = k) →
+      (∀ y ∈ ds'.take (pre.length + mid.length), ∃ k : ℕ, y * sr = k) →
+      ∀ T : ℤ, |t * sr - T| ≤ 2/5 →
+        ((sumN ((f.blocks.map Blk.len).take (pre.length + (mid.length + 1))) : ℕ) : ℤ) = T ∧
+        ((sumN ((f'.blocks.map Blk.len).take (pre.length + (mid.length + 1))) : ℕ) : ℤ) = T ∧
+        f'.N = f.N ∧
+        laterMarks sr (·.m1) (pre ++ (mid ++ [w])) rest (f'.blocks.map Blk.len) =
+          laterMarks sr (·.m1) (pre ++ (mid ++ [w])) rest (f.blocks.map Blk.len) ∧
+        laterMarks sr (·.m2) (pre ++ (mid ++ [w])) rest (f'.blocks.map Blk.len) =
+          laterMarks sr (·.m2) (pre ++ (mid ++ [w])) rest (f.blocks.map Blk.len) := by
+  obtain ⟨pre', hl, hsegs, _, _, hSR⟩ := changeDuration_suffix b name dur all pre (mid ++ w :: rest) hb hnt
+  have h1 : b.segs.map BP.Seg.body = (pre ++ (mid ++ w :: rest)).map BP.Seg.body := by rw [hb]
+  have h2 : (b.changeDuration name dur all).st.segs.map BP.Seg.body =
+      (pre' ++ (mid ++ w :: rest)).map BP.Seg.body := by rw [hsegs]
+  have hs2 : (b.changeDuration name dur all).st.SR = .num sr := by rw [hSR, hsr]
+  have A := common_suffix_wait_shift b _ pre pre' mid w rest t tl h1 h2 hmid hw ha sr hsr hs2 f f' hf hf'
+  have B := common_suffix_wait_shift _ b pre' pre mid w rest t tl h2 h1 hmid hw ha sr hs2 hsr f' f hf' hf
+  have hL : ∀ sel post lens, laterMarks sr sel pre' post lens = laterMarks sr sel pre post lens :=
+    fun sel post lens => laterMarks_congr_len sr sel pre' pre post lens hl
+  have hL2 : ∀ sel post lens, laterMarks sr sel (pre' ++ (mid ++ [w])) post lens =
+      laterMarks sr sel (pre ++ (mid ++ [w])) post lens :=
+    fun sel post lens => laterMarks_congr_len sr sel _ _ post lens (by simp [hl])
+  rw [hl] at A B
+  simp only [hL] at A B
+  refine ⟨A.1, A.2.1, A.2.2.1, B.2.2.1, ?_⟩
+  intro ds ds' hds hds' hal hal' T ht
+  obtain ⟨hT1, hT2, hN, _, hm1, hm2⟩ := common_suffix_wait_aligned b _ pre pre' mid w rest t tl h1 h2 hmid hw ha
+    sr hsr hs2 f f' hf hf' ds ds' hds hds' hal (by rw [hl]; exact hal') T ht
+  rw [hl] at hT2
+  simp only [hL2] at hm1 hm2
+  exact ⟨hT1, hT2, hN, hm1, hm2⟩
+
+/-- the resolved durations in front of the waituntil, with one more segment `x` in front: they are
+    those without `x`, and the resolved duration `dx` of `x` -/
+theorem fronts_of_plus_one (b1 b2 : BP) (pre mid : List Seg) (x w : Seg) (rest : List Seg) (t : ℚ) (tl : List Val)
+    (h1 : b1.segs.map BP.Seg.body = (pre ++ (mid ++ w :: rest)).map BP.Seg.body)
+    (h2 : b2.segs.map BP.Seg.body = ((pre ++ [x]) ++ (mid ++ w :: rest)).map BP.Seg.body)
+    (hmid : ∀ s ∈ mid, s.fn.isWait = false) (hw : w.fn.isWait = true) (ha : w.args = .num t :: tl)
+    (f1 f2 : Forged) (hf1 : forgeBP b1 = .ok f1) (hf2 : forgeBP b2 = .ok f2)
+    (ds1 ds2 : List ℚ) (hd1 : b1.resolveWaits = .ok ds1) (hd2 : b2.resolveWaits = .ok ds2) :
+    ∃ dp dx, BP.resolveGo pre 0 = .ok dp ∧ BP.resolveGo [x] (0 + sumR dp) = .ok [dx] ∧
+      ∀ y, y ∈ ds2.take (pre.length + 1 + mid.length) ↔ (y ∈ ds1.take (pre.length + mid.length) ∨ y = dx) := by
+  obtain ⟨sr1, dp1, dr1, np1, nw1, nr1, _, hp1, _, hnp1, _, hlp1, _, hlm1, hres1, _⟩ :=
+    forge_split_wait b1 pre mid w rest t tl h1 hmid hw ha f1 hf1
+  obtain ⟨sr2, dp2, dr2, np2, nw2, nr2, _, hp2, _, hnp2, _, hlp2, _, _, hres2, _⟩ :=
+    forge_split_wait b2 (pre ++ [x]) mid w rest t tl h2 hmid hw ha f2 hf2
+  obtain ⟨da, dc, hra, hrc, rfl, _⟩ := resolveGo_append_inv pre [x] 0 dp2 hp2
+  have : da = dp1 := by rw [hp1] at hra; cases hra; rfl
+  subst this
+  have hlc : dc.length = 1 := by simpa using resolveGo_length _ _ _ hrc
+  obtain ⟨dx, rfl⟩ : ∃ dx, dc = [dx] := by
+    cases dc with
+    | nil => simp at hlc
+    | cons y ys => cases ys with
+      | nil => exact ⟨y, rfl⟩
+      | cons z zs => simp at hlc
+  have hdpl : da.length = pre.length := by rw [hnp1] at hlp1; simpa using hlp1
+  have hdml : (mid.filterMap durOf?).length = mid.length := by simpa using hlm1
+  have e1 : ds1 = da ++ (mid.filterMap durOf? ++
+      (t - (0 + sumR da + sumR (mid.filterMap durOf?))) :: dr1) := by
+    rw [hd1] at hres1; exact Except.ok.inj hres1
+  have e2 : ds2 = (da ++ [dx]) ++ (mid.filterMap durOf? ++
+      (t - (0 + sumR (da ++ [dx]) + sumR (mid.filterMap durOf?))) :: dr2) := by
+    rw [hd2] at hres2; exact Except.ok.inj hres2
+  have t1 : ds1.take (pre.length + mid.length) = da ++ mid.filterMap durOf? := by
+    rw [e1, ← List.append_assoc (as := da)]
+    exact List.take_left' (by simp [hdpl, hdml])
+  have t2 : ds2.take (pre.length + 1 + mid.length) = (da ++ [dx]) ++ mid.filterMap durOf? := by
+    rw [e2, ← List.append_assoc (as := da ++ [dx])]
+    exact List.take_left' (by simp only [List.length_append, hdpl, hdml, List.length_singleton])
+  refine ⟨da, dx, hp1, hrc, fun y => ?_⟩
+  rw [t1, t2]
+  simp only [List.mem_append, List.mem_singleton]
+  tauto
+
+/-- **Insert in front of a waituntil, sample-aligned: the wait absorbs the shift** (the headline
+    form of `insert_before_wait`): if the resolved durations in front of the waituntil are whole
+    numbers of samples *before* the insertion and the inserted duration `d` is a whole number of
+    samples, then (the blueprint forging before and after) the waveform keeps its total length, the
+    segment after the wait starts at sample `T = round(t·SR)` before and after, the blocks of `rest`
+    keep their lengths and the segment-bound markers of `rest` are literally the same marks -
+    their windows do not move at all - while the marks of `mid ++ [w]` move by `round(d·SR)` samples. -/
+theorem insert_before_wait_absorbed (b : BP) (pre mid : List Seg) (w : Seg) (rest : List Seg) (t : ℚ) (tl : List Val)
+    (fn : Fn) (args : List Val) (d : ℚ) (name : Val)
+    (hb : b.segs = pre ++ (mid ++ w :: rest)) (hmid : ∀ s ∈ mid, s.fn.isWait = false)
+    (hw : w.fn.isWait = true) (ha : w.args = .num t :: tl) (hfn : fn.special = false)
+    (hacc : (b.insertSegment (pre.length : ℤ) fn args (.num d) name).err = none)
+    (f f' : Forged) (hf : forgeBP b = .ok f)
+    (hf' : forgeBP (b.insertSegment (pre.length : ℤ) fn args (.num d) name).st = .ok f')
+    (sr : ℚ) (hsr : b.SR = .num sr) (x : Seg) (ds : List ℚ) (hds : b.resolveWaits = .ok ds)
+    (hal : ∀ y ∈ ds.take (pre.length + mid.length), ∃ k : ℕ, y * sr = k) (hd : ∃ k : ℕ, d * sr = k)
+    (T : ℤ) (ht : |t * sr - T| ≤ 2/5) :
+    f'.N = f.N ∧
+    ((sumN ((f.blocks.map Blk.len).take (pre.length + (mid.length + 1))) : ℕ) : ℤ) = T ∧
+    ((sumN ((f'.blocks.map Blk.len).take (pre.length + 1 + (mid.length + 1))) : ℕ) : ℤ) = T ∧
+    (f'.blocks.map Blk.len).drop (pre.length + 1 + (mid.length + 1)) =
+      (f.blocks.map Blk.len).drop (pre.length + (mid.length + 1)) ∧
+    laterMarks sr (·.m1) ((pre ++ [x]) ++ (mid ++ [w])) rest (f'.blocks.map Blk.len) =
+      laterMarks sr (·.m1) (pre ++ (mid ++ [w])) rest (f.blocks.map Blk.len) ∧
+    laterMarks sr (·.m2) ((pre ++ [x]) ++ (mid ++ [w])) rest (f'.blocks.map Blk.len) =
+      laterMarks sr (·.m2) (pre ++ (mid ++ [w])) rest (f.blocks.map Blk.len) ∧
+    laterMarks sr (·.m1) (pre ++ [x]) (mid ++ [w]) (f'.blocks.map Blk.len) =
+      (laterMarks sr (·.m1) pre (mid ++ [w]) (f.blocks.map Blk.len)).map (shiftMark sr (rhe (d * sr)).toNat) ∧
+    laterMarks sr (·.m2) (pre ++ [x]) (mid ++ [w]) (f'.blocks.map Blk.len) =
+      (laterMarks sr (·.m2) pre (mid ++ [w]) (f.blocks.map Blk.len)).map (shiftMark sr (rhe (d * sr)).toNat) := by
+  obtain ⟨_, _, _, hrestc, hs1, hs2, hrest⟩ := insert_before_wait b pre mid w rest t tl fn args d name hb hmid hw ha hfn
+    hacc f f' hf hf' sr hsr x
+  obtain ⟨nm, hbody, _, _, hSR⟩ := insertSegment_split b pre (mid ++ w :: rest) fn args (.num d) name hb hacc
+  have h1 : b.segs.map BP.Seg.body = (pre ++ (mid ++ w :: rest)).map BP.Seg.body := by rw [hb]
+  have h2 : (b.insertSegment (pre.length : ℤ) fn args (.num d) name).st.segs.map BP.Seg.body =
+      ((pre ++ [newSeg nm fn args (.num d)]) ++ (mid ++ w :: rest)).map BP.Seg.body := by
+    rw [hbody]; simp
+  obtain ⟨sr', ds', _, _, hds', _, _, _⟩ := (forge_ok_iff _ f').mp hf'
+  obtain ⟨dp, dx, _, hrx, hiff⟩ := fronts_of_plus_one b _ pre mid (newSeg nm fn args (.num d)) w rest t tl h1 h2 hmid hw ha
+    f f' hf hf' ds ds' hds hds'
+  have hdx : dx = d := by
+    have hwf : fn.isWait = false := by simp [Fn.isWait, hfn]
+    simp only [BP.resolveGo, newSeg, hwf, Bool.false_eq_true, if_false, BP.consOk, Except.ok.injEq,
+      List.cons.injEq, and_true] at hrx
+    exact hrx.symm
+  subst hdx
+  have hal' : ∀ y ∈ ds'.take (pre.length + 1 + mid.length), ∃ k : ℕ, y * sr = k := by
+    intro y hy
+    rcases (hiff y).mp hy with h | rfl
+    · exact hal y h
+    · exact hd
+  obtain ⟨hT1, hT2, hN, hm1, hm2⟩ := hrest ds ds' hds hds' hal hal' T ht
+  exact ⟨hN, hT1, hT2, hrestc, hm1, hm2, hs1, hs2⟩
+
+/-- **Window shift on a waveform of unchanged length** (the situation behind an absorbing
+    waituntil): a marker moved by `n` samples in time on the *same* `N`-sample waveform has its window
+    moved by exactly `n` samples - start and stop - provided the old window lay on the first `N − n`
+    samples (`MarkInside (N − n)`: the moved window still fits on the waveform). -/
+theorem shifted_window_same_length (N n : ℕ) (sr : ℚ) (hsr : sr ≠ 0) (m : Mark) (h : MarkInside (N - n) sr m) :
+    window N sr (shiftMark sr n m) = ((window N sr m).1 + n, (window N sr m).2 + n) := by
+  have hn : n ≤ N := by
+    obtain ⟨h1, h2, _, _⟩ := h
+    have : (1 : ℚ) ≤ ((N - n : ℕ) : ℚ) := by linarith
+    have : 1 ≤ N - n := by exact_mod_cast this
+    omega
+  obtain ⟨N0, rfl⟩ : ∃ N0, N = N0 + n := ⟨N - n, by omega⟩
+  have h' : MarkInside N0 sr m := by simpa using h
+  have e1 := g4_window_shift N0 n n sr hsr m h' le_rfl
+  have e2 := g4_window_longer N0 n sr m h'
+  rw [e2]
+  exact e1
+
+/-- **The windows themselves, insert in front of a waituntil (sample-aligned).**  In the situation
+    of `insert_before_wait_absorbed`, with `n = round(d·SR)`, on either marker channel:
+    * if a segment-bound marker of `mid ++ [w]` (window on the first `N − n` samples) switches sample
+      `k` ON before the insertion, sample `k + n` is ON after it - the window has moved by `n`;
+    * if a segment-bound marker of `rest` switches sample `k` ON before the insertion, the *same*
+      sample `k` is ON after it - the window has not moved. -/
+theorem insert_before_wait_on_samples (b : BP) (pre mid : List Seg) (w : Seg) (rest : List Seg) (t : ℚ) (tl : List Val)
+    (fn : Fn) (args : List Val) (d : ℚ) (name : Val)
+    (hb : b.segs = pre ++ (mid ++ w :: rest)) (hmid : ∀ s ∈ mid, s.fn.isWait = false)
+    (hw : w.fn.isWait = true) (ha : w.args = .num t :: tl) (hfn : fn.special = false)
+    (hacc : (b.insertSegment (pre.length : ℤ) fn args (.num d) name).err = none)
+    (f f' : Forged) (hf : forgeBP b = .ok f)
+    (hf' : forgeBP (b.insertSegment (pre.length : ℤ) fn args (.num d) name).st = .ok f')
+    (sr : ℚ) (hsr : b.SR = .num sr) (hsr0 : sr ≠ 0) (ds : List ℚ) (hds : b.resolveWaits = .ok ds)
+    (hal : ∀ y ∈ ds.take (pre.length + mid.length), ∃ k : ℕ, y * sr = k) (hd : ∃ k : ℕ, d * sr = k)
+    (T : ℤ) (ht : |t * sr - T| ≤ 2/5) :
+    (∀ m ∈ laterMarks sr (·.m1) pre (mid ++ [w]) (f.blocks.map Blk.len),
+      MarkInside (f.N - (rhe (d * sr)).toNat) sr m → ∀ k, onAt (window f.N sr m) k →
+        ∃ hk : k + (rhe (d * sr)).toNat < f'.m1.length, f'.m1[k + (rhe (d * sr)).toNat] = 1) ∧
+    (∀ m ∈ laterMarks sr (·.m2) pre (mid ++ [w]) (f.blocks.map Blk.len),
+      MarkInside (f.N - (rhe (d * sr)).toNat) sr m → ∀ k, onAt (window f.N sr m) k →
+        ∃ hk : k + (rhe (d * sr)).toNat < f'.m2.length, f'.m2[k + (rhe (d * sr)).toNat] = 1) ∧
+    (∀ m ∈ laterMarks sr (·.m1) (pre ++ (mid ++ [w])) rest (f.blocks.map Blk.len),
+      ∀ k, onAt (window f.N sr m) k → ∃ hk : k < f'.m1.length, f'.m1[k] = 1) ∧
+    (∀ m ∈ laterMarks sr (·.m2) (pre ++ (mid ++ [w])) rest (f.blocks.map Blk.len),
+      ∀ k, onAt (window f.N sr m) k → ∃ hk : k < f'.m2.length, f'.m2[k] = 1) := by
+  obtain ⟨nm, hbody, _, _, hSR⟩ := insertSegment_split b pre (mid ++ w :: rest) fn args (.num d) name hb hacc
+  have h2 : (b.insertSegment (pre.length : ℤ) fn args (.num d) name).st.segs.map BP.Seg.body =
+      ((pre ++ [newSeg nm fn args (.num d)]) ++ (mid ++ w :: rest)).map BP.Seg.body := by
+    rw [hbody]; simp
+  obtain ⟨hN, _, _, _, hr1, hr2, hs1, hs2⟩ := insert_before_wait_absorbed b pre mid w rest t tl fn args d name hb hmid hw ha
+    hfn hacc f f' hf hf' sr hsr (newSeg nm fn args (.num d)) ds hds hal hd T ht
+  obtain ⟨sr', e', _, hm1, hm2, _, _⟩ := markers_split_wait _ (pre ++ [newSeg nm fn args (.num d)]) mid w rest t tl h2
+    hmid hw ha f' hf'
+  have : sr' = sr := by rw [hSR, hsr] at e'; cases e'; rfl
+  subst this
+  obtain ⟨_, _, _, _, _, _, _, hl1, hl2, _⟩ := C03.markers_spec_counts _ f' hf'
+  have hkN : ∀ (m : Mark) (k : ℕ), onAt (window f'.N sr' m) k → k < f'.N :=
+    fun m k hk => lt_of_lt_of_le hk.2 (window_clipped f'.N sr' m)
+  refine ⟨?_, ?_, ?_, ?_⟩
+  · intro m hm hin k hk
+    have hw' := shifted_window_same_length f.N (rhe (d * sr')).toNat sr' hsr0 m hin
+    have hon : onAt (window f'.N sr' (shiftMark sr' (rhe (d * sr')).toNat m)) (k + (rhe (d * sr')).toNat) := by
+      rw [hN, hw']
+      exact ⟨by simp only; have := hk.1; omega, by simp only; have := hk.2; omega⟩
+    have hlt : k + (rhe (d * sr')).toNat < f'.m1.length := by rw [hl1]; exact hkN _ _ hon
+    refine ⟨hlt, ?_⟩
+    rw [hm1]
+    right; left
+    exact ⟨_, by rw [hs1]; exact List.mem_map.mpr ⟨m, hm, rfl⟩, hon⟩
+  · intro m hm hin k hk
+    have hw' := shifted_window_same_length f.N (rhe (d * sr')).toNat sr' hsr0 m hin
+    have hon : onAt (window f'.N sr' (shiftMark sr' (rhe (d * sr')).toNat m)) (k + (rhe (d * sr')).toNat) := by
+      rw [hN, hw']
+      exact ⟨by simp only; have := hk.1; omega, by simp only; have := hk.2; omega⟩
+    have hlt : k + (rhe (d * sr')).toNat < f'.m2.length := by rw [hl2]; exact hkN _ _ hon
+    refine ⟨hlt, ?_⟩
+    rw [hm2]
+    right; left
+    exact ⟨_, by rw [hs2]; exact List.mem_map.mpr ⟨m, hm, rfl⟩, hon⟩
+  · intro m hm k hk
+    have hon : onAt (window f'.N sr' m) k := by rw [hN]; exact hk
+    have hlt : k < f'.m1.length := by rw [hl1]; exact hkN _ _ hon
+    refine ⟨hlt, ?_⟩
+    rw [hm1]
+    right; right
+    exact ⟨m, by rw [hr1]; exact hm, hon⟩
+  · intro m hm k hk
+    have hon : onAt (window f'.N sr' m) k := by rw [hN]; exact hk
+    have hlt : k < f'.m2.length := by rw [hl2]; exact hkN _ _ hon
+    refine ⟨hlt, ?_⟩
+    rw [hm2]
+    right; right
+    exact ⟨m, by rw [hr2]; exact hm, hon⟩
+
+/-- **Remove in front of a waituntil, sample-aligned: the wait absorbs the shift**: if the resolved
+    durations in front of the waituntil (those of `pre`, `x` and `mid`) are whole numbers of samples
+    before the removal, then (the blueprint forging before and after) the waveform keeps its total
+    length, the segment after the wait starts at sample `T = round(t·SR)` before and after, and the
+    segment-bound markers of `rest` are literally the same marks. -/
+theorem remove_before_wait_absorbed (b : BP) (pre mid : List Seg) (x w : Seg) (rest : List Seg) (t : ℚ) (tl : List Val)
+    (name : String) (hb : b.segs = pre ++ x :: (mid ++ w :: rest)) (hi : b.indexOf? name = some pre.length)
+    (hmid : ∀ s ∈ mid, s.fn.isWait = false) (hw : w.fn.isWait = true) (ha : w.args = .num t :: tl)
+    (f f' : Forged) (hf : forgeBP b = .ok f) (hf' : forgeBP (b.removeSegment name).st = .ok f')
+    (sr : ℚ) (hsr : b.SR = .num sr) (ds : List ℚ) (hds : b.resolveWaits = .ok ds)
+    (hal : ∀ y ∈ ds.take (pre.length + 1 + mid.length), ∃ k : ℕ, y * sr = k)
+    (T : ℤ) (ht : |t * sr - T| ≤ 2/5) :
+    f'.N = f.N ∧
+    ((sumN ((f.blocks.map Blk.len).take (pre.length + 1 + (mid.length + 1))) : ℕ) : ℤ) = T ∧
+    ((sumN ((f'.blocks.map Blk.len).take (pre.length + (mid.length + 1))) : ℕ) : ℤ) = T ∧
+    (f.blocks.map Blk.len).drop (pre.length + 1 + (mid.length + 1)) =
+      (f'.blocks.map Blk.len).drop (pre.length + (mid.length + 1)) ∧
+    laterMarks sr (·.m1) (pre ++ (mid ++ [w])) rest (f'.blocks.map Blk.len) =
+      laterMarks sr (·.m1) ((pre ++ [x]) ++ (mid ++ [w])) rest (f.blocks.map Blk.len) ∧
+    laterMarks sr (·.m2) (pre ++ (mid ++ [w])) rest (f'.blocks.map Blk.len) =
+      laterMarks sr (·.m2) ((pre ++ [x]) ++ (mid ++ [w])) rest (f.blocks.map Blk.len) := by
+  obtain ⟨_, n, _, _, _, hrestc, _, _, hrest⟩ := remove_before_wait b pre mid x w rest t tl name hb hi hmid hw ha
+    f f' hf hf' sr hsr
+  obtain ⟨_, hbody, _, _, _⟩ := removeSegment_split b pre (mid ++ w :: rest) x name hb hi
+  have h2 : b.segs.map BP.Seg.body = ((pre ++ [x]) ++ (mid ++ w :: rest)).map BP.Seg.body := by rw [hb]; simp
+  obtain ⟨sr', ds', _, _, hds', _, _, _⟩ := (forge_ok_iff _ f').mp hf'
+  obtain ⟨_, dx, _, _, hiff⟩ := fronts_of_plus_one _ b pre mid x w rest t tl hbody h2 hmid hw ha
+    f' f hf' hf ds' ds hds' hds
+  have hal' : ∀ y ∈ ds'.take (pre.length + mid.length), ∃ k : ℕ, y * sr = k :=
+    fun y hy => hal y ((hiff y).mpr (Or.inl hy))
+  obtain ⟨hT1, hT2, hN, hm1, hm2⟩ := hrest ds ds' hds hds' hal hal' T ht
+  exact ⟨hN, hT1, hT2, hrestc, hm1, hm2⟩
+
+/-! non-vacuity: ramp(1 s), rampB(1 s, marker 1 at +0.1 s for 0.2 s), waituntil(5) (marker 2 at +0.1 s
+    for 0.2 s), rampC(1 s, marker 1 at +0.2 s for 0.3 s) at 10 Sa/s: blocks [10, 10, 30, 10] -/
+def exWaitBP : BP :=
+  { segs := [ { name := "ramp", fn := Fn.rampFn, args := [.num 0, .num 1], dur := .num 1 },
+              { name := "rampB", fn := Fn.rampFn, args := [.num 0, .num 1], dur := .num 1, m1 := (1/10, 1/5) },
+              { name := "waituntil", fn := Fn.waitSpecial, args := [.num 5], dur := .none, m2 := (1/10, 1/5) },
+              { name := "rampC", fn := Fn.rampFn, args := [.num 1, .num 0], dur := .num 1, m1 := (1/5, 3/10) } ],
+    SR := .num 10 }
+
+/-- the hypotheses of `insert_before_wait` / `changeDuration_before_wait` (with `pre = [ramp]`,
+    `mid = [rampB]`, `w = waituntil(5)`, `rest = [rampC]`): the insertion of a 0.5 s ramp at
+    position 1 is accepted, everything forges, the fronts are sample-aligned, `t·SR = 50` -/
+example : exWaitBP.segs = [exWaitBP.segs[0]] ++ ([exWaitBP.segs[1]] ++ exWaitBP.segs[2] :: [exWaitBP.segs[3]]) ∧
+    (∀ s ∈ [exWaitBP.segs[1]], s.fn.isWait = false) ∧ (exWaitBP.segs[2]).fn.isWait = true ∧
+    (exWaitBP.segs[2]).args = .num 5 :: [] ∧ Fn.rampFn.special = false ∧
+    (exWaitBP.insertSegment (([exWaitBP.segs[0]].length : ℕ) : ℤ) Fn.rampFn [.num 0, .num 0] (.num (1/2)) .none).err = none ∧
+    exWaitBP.resolveWaits = .ok [1, 1, 3, 1] ∧
+    (exWaitBP.insertSegment 1 Fn.rampFn [.num 0, .num 0] (.num (1/2)) .none).st.resolveWaits = .ok [1, 1/2, 1, 5/2, 1] ∧
+    (1 : ℚ) * 10 = (10 : ℕ) ∧ ((1 : ℚ) / 2) * 10 = (5 : ℕ) ∧ |(5 : ℚ) * 10 - (50 : ℤ)| ≤ 2/5 ∧
+    (∀ s ∈ [exWaitBP.segs[1]] ++ exWaitBP.segs[2] :: [exWaitBP.segs[3]],
+      (exWaitBP.targets "ramp" false).2.contains s.name = false) := by
+  refine ⟨by decide +kernel, by decide +kernel, by decide +kernel, by decide +kernel, by decide, by decide +kernel,
+    by decide +kernel, by decide +kernel, by norm_num, by norm_num, by norm_num, by decide +kernel⟩
+
+/-- what happens: before, `rampB`'s marker 1 is ON at samples 11,12, the wait's marker 2 at 21,22,
+    `rampC`'s marker 1 at 52,53,54 (60 samples).  After inserting 5 samples in front - or lengthening
+    `ramp` by 5 samples - the first two have moved to 16,17 and 26,27, the wait has shrunk from 30 to
+    25 samples, and `rampC` with its marker has not moved: still 60 samples, marker at 52,53,54. -/
+example :
+    (forgeBP exWaitBP).toOption.map (fun f => (f.blocks.map Blk.len, f.N,
+        (List.range 60).filter (fun k => f.m1.getD k 0 = 1), (List.range 60).filter (fun k => f.m2.getD k 0 = 1))) =
+      some ([10, 10, 30, 10], 60, [11, 12, 52, 53, 54], [21, 22]) ∧
+    (forgeBP (exWaitBP.insertSegment 1 Fn.rampFn [.num 0, .num 0] (.num (1/2)) .none).st).toOption.map
+      (fun f => (f.blocks.map Blk.len, f.N,
+        (List.range 60).filter (fun k => f.m1.getD k 0 = 1), (List.range 60).filter (fun k => f.m2.getD k 0 = 1))) =
+      some ([10, 5, 10, 25, 10], 60, [16, 17, 52, 53, 54], [26, 27]) ∧
+    (forgeBP (exWaitBP.changeDuration "ramp" (.num (3/2)) false).st).toOption.map
+      (fun f => (f.blocks.map Blk.len, f.N,
+        (List.range 60).filter (fun k => f.m1.getD k 0 = 1), (List.range 60).filter (fun k => f.m2.getD k 0 = 1))) =
+      some ([15, 10, 25, 10], 60, [16, 17, 52, 53, 54], [26, 27]) := by
+  refine ⟨by decide +kernel, by decide +kernel, by decide +kernel⟩
+
+/-- non-vacuity of `shifted_window_same_length` / `insert_before_wait_on_samples` on the example
+    below: `rampB`'s marker (ON time 1.1 s, 0.2 s long) lies on the first 60 − 5 samples; moved by 5
+    samples on the same 60-sample waveform its window goes from [11, 13) to [16, 18) -/
+example : MarkInside (60 - 5) 10 ((11/10 : ℚ), (1/5 : ℚ)) ∧ window 60 10 ((11/10 : ℚ), (1/5 : ℚ)) = (11, 13) ∧
+    window 60 10 (shiftMark 10 5 ((11/10 : ℚ), (1/5 : ℚ))) = (16, 18) := by
+  refine ⟨by decide +kernel, by decide +kernel, by decide +kernel⟩
+
+/-- **When does the insertion still fit before `t`?**  In the situation of `insert_before_wait`
+    (before the insertion the blueprint forges), let `left = t − (elapsed(pre) + d + Σ durations of
+    mid)` be the time left for the waituntil afterwards, `elapsed(pre)` being the sum of the resolved
+    durations `dp` of `pre`.  If `left < 0` the new blueprint does not forge (ValueError, no shortened
+    or overlapping waveform); if `left ≥ 0` and both the new segment and the shrunken wait get at least
+    two samples, it forges - so the hypothesis "forges before and after" of `insert_before_wait` is
+    exactly "the insertion still fits". -/
+theorem insert_before_wait_fits (b : BP) (pre mid : List Seg) (w : Seg) (rest : List Seg) (t : ℚ) (tl : List Val)
+    (fn : Fn) (args : List Val) (d : ℚ) (name : Val)
+    (hb : b.segs = pre ++ (mid ++ w :: rest)) (hmid : ∀ s ∈ mid, s.fn.isWait = false)
+    (hw : w.fn.isWait = true) (ha : w.args = .num t :: tl) (hfn : fn.special = false)
+    (hacc : (b.insertSegment (pre.length : ℤ) fn args (.num d) name).err = none)
+    (f : Forged) (hf : forgeBP b = .ok f) :
+    ∃ sr dp, b.SR = .num sr ∧ BP.resolveGo pre 0 = .ok dp ∧
+      (t - (0 + sumR dp + d + sumR (mid.filterMap durOf?)) < 0 →
+        forgeBP (b.insertSegment (pre.length : ℤ) fn args (.num d) name).st = .error .value) ∧
+      (0 ≤ t - (0 + sumR dp + d + sumR (mid.filterMap durOf?)) → 2 ≤ rhe (d * sr) →
+        2 ≤ rhe ((t - (0 + sumR dp + d + sumR (mid.filterMap durOf?))) * sr) →
+        ∃ f', forgeBP (b.insertSegment (pre.length : ℤ) fn args (.num d) name).st = .ok f') :=
+  forge_insert_before_wait b pre mid w rest t tl fn args d name hb hmid hw ha hfn hacc f hf
+
+/-- on the example: `elapsed(pre) = 1`, `Σ mid = 1`, `t = 5`: a 0.5 s insertion leaves 2.5 s (25
+    samples) and forges; a 4 s insertion leaves −1 s and raises ValueError -/
+example : BP.resolveGo [exWaitBP.segs[0]] 0 = .ok [1] ∧ [exWaitBP.segs[1]].filterMap durOf? = [1] ∧
+    (0 : ℚ) ≤ 5 - (0 + sumR [1] + 1/2 + sumR [1]) ∧ (2 : ℤ) ≤ rhe ((1/2 : ℚ) * 10) ∧
+    (2 : ℤ) ≤ rhe ((5 - (0 + sumR [1] + 1/2 + sumR [1]) : ℚ) * 10) ∧
+    (5 : ℚ) - (0 + sumR [1] + 4 + sumR [1]) < 0 ∧
+    (exWaitBP.insertSegment 1 Fn.rampFn [.num 0, .num 0] (.num 4) .none).err = none ∧
+    forgeBP (exWaitBP.insertSegment 1 Fn.rampFn [.num 0, .num 0] (.num 4) .none).st = .error .value := by
+  refine ⟨by decide +kernel, by decide +kernel, by decide +kernel, by decide +kernel, by decide +kernel,
+    by decide +kernel, by decide +kernel, by decide +kernel⟩
+
+/-- `insert_before_wait_absorbed` applied to the example: every hypothesis is discharged, so the
+    theorem really says of this blueprint that the total length stays and `rampC` stays at sample 50 -/
+example (f f' : Forged) (hf : forgeBP exWaitBP = .ok f)
+    (hf' : forgeBP (exWaitBP.insertSegment (([exWaitBP.segs[0]].length : ℕ) : ℤ) Fn.rampFn [.num 0, .num 0]
+      (.num (1/2)) .none).st = .ok f') :
+    f'.N = f.N ∧ ((sumN ((f'.blocks.map Blk.len).take (1 + 1 + (1 + 1))) : ℕ) : ℤ) = 50 := by
+  have h := insert_before_wait_absorbed exWaitBP [exWaitBP.segs[0]] [exWaitBP.segs[1]] exWaitBP.segs[2]
+    [exWaitBP.segs[3]] 5 [] Fn.rampFn [.num 0, .num 0] (1/2) .none (by decide +kernel) (by decide +kernel)
+    (by decide +kernel) (by decide +kernel) (by decide) (by decide +kernel) f f' hf hf' 10 rfl exWaitBP.segs[0]
+    [1, 1, 3, 1] (by decide +kernel)
+    (by
+      intro y hy
+      have : y = 1 := by
+        simp only [List.length_singleton, List.take_succ_cons, List.take_zero, List.mem_cons, List.not_mem_nil,
+          or_false, or_self] at hy
+        exact hy
+      exact ⟨10, by rw [this]; norm_num⟩)
+    ⟨5, by norm_num⟩ 50 (by norm_num)
+  exact ⟨h.1, h.2.2.1⟩
+
+/-- non-vacuity of `remove_before_wait` (`pre = []`, `x = ramp`, `mid = [rampB]`): removing `ramp`
+    moves `rampB`'s marker and the wait's marker 10 samples earlier, the wait grows from 30 to 40
+    samples, `rampC` and its marker stay -/
+example : exWaitBP.segs = [] ++ exWaitBP.segs[0] :: ([exWaitBP.segs[1]] ++ exWaitBP.segs[2] :: [exWaitBP.segs[3]]) ∧
+    exWaitBP.indexOf? "ramp" = some ([] : List Seg).length ∧
+    (exWaitBP.removeSegment "ramp").st.resolveWaits = .ok [1, 4, 1] ∧
+    (forgeBP (exWaitBP.removeSegment "ramp").st).toOption.map
+      (fun f => (f.blocks.map Blk.len, f.N,
+        (List.range 60).filter (fun k => f.m1.getD k 0 = 1), (List.range 60).filter (fun k => f.m2.getD k 0 = 1))) =
+      some ([10, 40, 10], 60, [1, 2, 52, 53, 54], [11, 12]) := by
+  refine ⟨by decide +kernel, by decide +kernel, by decide +kernel, by decide +kernel⟩
+
+/-- the alignment hypothesis cannot be dropped: in front of `waituntil(1.06)` at 10 Sa/s a front of
+    0.35 s (3.5 samples, rounded half-even to 4) leaves 7.1 → 7 samples for the wait, so the segment
+    behind the wait starts at sample 11 (= `round(t·SR)`); changing the front to 0.34 s (3.4 → 3
+    samples) leaves 7.2 → 7 samples, and the segment behind the wait starts at sample 10: with fronts
+    that are not whole numbers of samples the waituntil does not absorb the change exactly -/
+example : (forgeBP { segs := [ { name := "ramp", fn := Fn.rampFn, args := [.num 0, .num 1], dur := .num (7/20) },
+                               { name := "waituntil", fn := Fn.waitSpecial, args := [.num (53/50)], dur := .none },
+                               { name := "ramp2", fn := Fn.rampFn, args := [.num 1, .num 0], dur := .num 1 } ],
+                     SR := .num 10 }).toOption.map (fun f => starts (f.blocks.map Blk.len) 0) = some [0, 4, 11] ∧
+    rhe ((53/50 : ℚ) * 10) = 11 ∧
+    (forgeBP { segs := [ { name := "ramp", fn := Fn.rampFn, args := [.num 0, .num 1], dur := .num (17/50) },
+                         { name := "waituntil", fn := Fn.waitSpecial, args := [.num (53/50)], dur := .none },
+                         { name := "ramp2", fn := Fn.rampFn, args := [.num 1, .num 0], dur := .num 1 } ],
+               SR := .num 10 }).toOption.map (fun f => starts (f.blocks.map Blk.len) 0) = some [0, 3, 10] := by
+  refine ⟨by decide +kernel, by decide +kernel, by decide +kernel⟩
 
 end BB.C03
